@@ -44,7 +44,8 @@ IndexOf(s, c) == LET P == {i \in 1..Len(s) : s[i] = c} IN IF P = {} THEN 0 ELSE 
 IsPrefix(p, s) == Len(p) <= Len(s) /\ SubSeq(s, 1, Len(p)) = p
 Unquote(v) == IF Len(v) >= 2 /\ v[1] = QUOTE /\ v[Len(v)] = QUOTE THEN SubSeq(v, 2, Len(v) - 1) ELSE v
 RECURSIVE Tokens(_, _)
-Tokens(s, from) == LET P == {i \in from..Len(s) : s[i] = SP} IN
+Tokens(s, from) == IF s = << >> THEN {} ELSE      \* an empty value has no tokens
+                   LET P == {i \in from..Len(s) : s[i] = SP} IN
                    IF P = {} THEN {SubSeq(s, from, Len(s))}
                    ELSE LET i == CHOOSE x \in P : \A y \in P : x <= y IN {SubSeq(s, from, i - 1)} \cup Tokens(s, i + 1)
 Hit(text, pat, prefix) == IF prefix THEN IsPrefix(pat, text) ELSE pat = text
